@@ -20,6 +20,7 @@ from .resolve import Resolver
 
 VERIF = Path(__file__).resolve().parent.parent
 DEFAULT_REPO = "/repo"
+WRITE_EVIDENCE = True
 
 
 @dataclass
@@ -301,7 +302,8 @@ def main_check(prop: str, tier: str, repo_root: str, replay: Optional[str] = Non
         print(f"VIOLATION property={prop} replay={fn}")
         print(f"  {i.file}:{i.line} {i.rule} {i.construct}: {i.reason}")
 
-    write_evidence(prop, mod, ctx, tier, seed, time.time() - t0, len(new), len(listed))
+    if WRITE_EVIDENCE:
+        write_evidence(prop, mod, ctx, tier, seed, time.time() - t0, len(new), len(listed))
     n_rules = len({i.rule for i in ctx.insts})
     if new:
         return 1
